@@ -59,6 +59,22 @@ CHECKS = {
          'explicit-state BFS with a /proc/self/fd census monitor on every transition (+ repeat-the-operation differential, + after close); open-file monitor over a request lattice; tracemalloc budget over a size lattice',
          'Descriptor half: exhaustive over bounded histories. Open-file half: complete product of container shapes and request styles under an interposed open/close monitor. Memory half: enumeration (exploration level) of streaming paths x sizes with a peak budget and a no-growth criterion.',
          'GC disabled during the census; memory half covers sizes 1-16 (48) MiB only.', '5 C18'),
+ 'C01': ('grids', 'model_checking',
+         'complete enumeration of a finite lattice: byte strings x write paths x read modes x configurations, on the real library',
+         'Every byte string over a 3-letter alphabet up to length 5 (7) and every length straddling the internal chunk sizes x 4 content kinds is stored through every write path (incl. short-read streams, batches with repeats, no_holes variants, loose-then-pack) under the configuration product and read back through every read mode; nothing is sampled.',
+         'Strings outside the lattice and lengths above 2 MiB are not covered; hashlib is the oracle.', '5 C01, 3 E5'),
+ 'C10': ('grids', 'model_checking',
+         'complete enumeration: initial store x zlib level x pack target x every chain of three repack modes, with per-step monitors',
+         'Seven contents (empty .. 300 KiB half/half) stored 8 ways, then all 64 chains of repack(KEEP/YES/NO/AUTO); after every step content, compression-flag rule, size, stored-length extent (raw reader) and size totals are checked.',
+         'Fixed contents; chains of length 3; AUTO only constrains content and bookkeeping.', '5 C10'),
+ 'C14': ('grids', 'model_checking',
+         'complete Cartesian product of import parameters (hash types, forms, pre-state, compress, memory budget, pack target, key set, iterable kind, callback)',
+         'Every combination is executed once on the real library and judged on: presence and bytes under the destination hash, mapping, unique rows, untouched pre-existing rows/files, no rewrite of held objects (same hash), ignored absent keys.',
+         'Five fixed object sizes; single import call per case.', '5 C14'),
+ 'C16': ('grids', 'model_checking',
+         'complete enumeration: all request sequences up to length 3 (4) over 6 keys x lowered threshold grid x bulk operation; all pairs of sorted-unique sequences for the merge helpers; all unsorted inputs',
+         'Bulk results are compared with the single-key API for every request sequence under every (IN-batch, full-scan) threshold pair, around the real thresholds (949..9501 keys, 999..2001 rows), and the helpers against set algebra for all 4096 pairs; unsorted inputs must be rejected.',
+         'Thresholds lowered via instance attributes; universe of 6 keys.', '5 C16'),
 }
 
 NOT_YET = {
